@@ -55,8 +55,9 @@ pub open spec fn cat(seps: Seq<Seq<u8>>, ws: Seq<Seq<u8>>) -> Seq<u8> decreases 
 }
 pub open spec fn separated(seps: Seq<Seq<u8>>, ws: Seq<Seq<u8>>, rest: Seq<u8>) -> bool {
     &&& seps.len() == ws.len()
-    &&& forall|i: int| 0 <= i < ws.len() ==> all_ws(#[trigger] seps[i]) && tok_shape(#[trigger] ws[i])
-    &&& forall|i: int| 0 <= i < ws.len() - 1 ==> (#[trigger] seps[i + 1]).len() > 0 || may_follow(ws[i], ws[i + 1])
+    &&& forall|i: int| 0 <= i < ws.len() ==> all_ws(#[trigger] seps[i])
+    &&& forall|i: int| 0 <= i < ws.len() ==> tok_shape(#[trigger] ws[i])
+    &&& forall|i: int| 1 <= i < ws.len() ==> (#[trigger] seps[i]).len() > 0 || may_follow(ws[i - 1], ws[i])
     &&& ws.len() > 0 ==> may_follow(ws[ws.len() - 1], rest)
 }
 // the tokens read from position p on are exactly ws[0], ws[1], ...; result = position after the last one
@@ -89,9 +90,9 @@ proof fn lemma_reg_end_run(buf: Seq<u8>, p: int, k: int)
 pub proof fn lemma_token_reads_back(pre: Seq<u8>, sep: Seq<u8>, w: Seq<u8>, next: Seq<u8>)
     requires all_ws(sep), tok_shape(w), may_follow(w, next),
     ensures ({
-        let buf = pre + sep + w + next; let s = pre.len() + sep.len();
-        token_start(buf, pre.len() as int) == Some(s as int) && token_end(buf, s as int) == s + w.len()
-            && buf.subrange(s as int, s + w.len()) == w
+        let buf = pre + sep + w + next; let s: int = (pre.len() + sep.len()) as int;
+        token_start(buf, pre.len() as int) == Some(s) && token_end(buf, s) == s + w.len()
+            && buf.subrange(s, s + w.len()) == w
     })
 {
     let buf = pre + sep + w + next; let p = pre.len() as int; let s = p + sep.len(); let e = s + w.len();
@@ -121,9 +122,11 @@ proof fn lemma_cat_first(seps: Seq<Seq<u8>>, ws: Seq<Seq<u8>>, rest: Seq<u8>)
             separated(seps.drop_first(), ws.drop_first(), rest),
 {
     let s1 = seps.drop_first(); let w1 = ws.drop_first();
-    assert forall|i: int| 0 <= i < w1.len() implies all_ws(#[trigger] s1[i]) && tok_shape(#[trigger] w1[i]) by { assert(s1[i] == seps[i + 1]); assert(w1[i] == ws[i + 1]); }
-    assert forall|i: int| 0 <= i < w1.len() - 1 implies (#[trigger] s1[i + 1]).len() > 0 || may_follow(w1[i], w1[i + 1]) by {
-        assert(s1[i + 1] == seps[i + 1 + 1]); assert(w1[i] == ws[i + 1]); assert(w1[i + 1] == ws[i + 2]);
+    assert forall|i: int| 0 <= i < w1.len() implies all_ws(#[trigger] s1[i]) by { assert(s1[i] == seps[i + 1]); }
+    assert forall|i: int| 0 <= i < w1.len() implies tok_shape(#[trigger] w1[i]) by { assert(w1[i] == ws[i + 1]); }
+    assert forall|i: int| 1 <= i < w1.len() implies (#[trigger] s1[i]).len() > 0 || may_follow(w1[i - 1], w1[i]) by {
+        assert(s1[i] == seps[i + 1]); assert(w1[i - 1] == ws[i]); assert(w1[i] == ws[i + 1]);
+        assert(seps[i + 1].len() > 0 || may_follow(ws[i + 1 - 1], ws[i + 1]));
     }
     if w1.len() > 0 {
         assert(w1[w1.len() - 1] == ws[ws.len() - 1]);
@@ -133,16 +136,19 @@ proof fn lemma_cat_first(seps: Seq<Seq<u8>>, ws: Seq<Seq<u8>>, rest: Seq<u8>)
         if seps[1].len() == 0 {
             assert(w1[0].len() > 0);
             assert((c + rest)[0] == ws[1][0]);
-            assert(seps[0 + 1].len() > 0 || may_follow(ws[0], ws[0 + 1]));
+            assert(seps[1].len() > 0 || may_follow(ws[0], ws[1]));
         }
     } else {
         assert(cat(s1, w1) + rest =~= rest);
     }
+    assert(s1.len() == w1.len());
+    assert(forall|i: int| 1 <= i < w1.len() ==> (#[trigger] s1[i]).len() > 0 || may_follow(w1[i - 1], w1[i]));
+    assert(w1.len() > 0 ==> may_follow(w1[w1.len() - 1], rest));
 }
 
 pub proof fn theorem_tokens_read_back(pre: Seq<u8>, seps: Seq<Seq<u8>>, ws: Seq<Seq<u8>>, rest: Seq<u8>)
     requires separated(seps, ws, rest),
-    ensures lex_seq(pre + cat(seps, ws) + rest, pre.len() as int, ws) == Some(pre.len() + cat(seps, ws).len()),
+    ensures lex_seq(pre + cat(seps, ws) + rest, pre.len() as int, ws) == Some((pre.len() + cat(seps, ws).len()) as int),
     decreases ws.len()
 {
     if ws.len() > 0 {
@@ -232,7 +238,7 @@ pub proof fn lemma_one_token_value(v: Primitive)
 pub proof fn theorem_reference_reads_back(pre: Seq<u8>, id: ObjNr, gen: GenNr, rest: Seq<u8>)
     requires seps_ok(), rest.len() == 0 || !is_regular(rest[0]),
     ensures lex_seq(pre + spell_ref(id, gen) + rest, pre.len() as int, seq![dec_int(id as int), dec_int(gen as int), KW_R()])
-        == Some(pre.len() + spell_ref(id, gen).len()),
+        == Some((pre.len() + spell_ref(id, gen).len()) as int),
 {
     lemma_dec_int_word(id as int); lemma_dec_int_word(gen as int); lemma_keywords_are_words();
     let seps = seq![Seq::<u8>::empty(), SEP_REF(), SEP_REF()];
@@ -252,7 +258,7 @@ pub proof fn theorem_framed_scalar_reads_back(pre: Seq<u8>, id: ObjNr, gen: GenN
     requires seps_ok(), display_req(), is_one_token_value(v), !DEV_REAL_WITHOUT_PERIOD(), !DEV_NO_SEPARATOR_BEFORE_ENDOBJ(),
     ensures lex_seq(pre + spell_indirect(id, gen, v) + rest, pre.len() as int,
                     seq![dec_int(id as int), dec_int(gen as int), KW_OBJ(), spell(v), KW_ENDOBJ()])
-        == Some(pre.len() + spell_indirect(id, gen, v).len() - SEP_ENDOBJ().len()),
+        == Some((pre.len() + spell_indirect(id, gen, v).len() - SEP_ENDOBJ().len()) as int),
 {
     lemma_dec_int_word(id as int); lemma_dec_int_word(gen as int); lemma_keywords_are_words(); lemma_one_token_value(v);
     let e = Seq::<u8>::empty();
@@ -305,4 +311,8 @@ proof fn lemma_reg_end_ge(buf: Seq<u8>, p: int, k: int)
     requires 0 <= p, 0 <= k, p + k <= buf.len(), forall|i: int| p <= i < p + k ==> is_regular(#[trigger] buf[i]),
     ensures reg_end(buf, p) >= p + k
     decreases k
-{ if k > 0 { lemma_reg_end_ge(buf, p + 1, k - 1); } }
+{ if k > 0 { lemma_reg_end_ge(buf, p + 1, k - 1); } else { lemma_reg_end_ge0(buf, p); } }
+proof fn lemma_reg_end_ge0(buf: Seq<u8>, p: int)
+    ensures reg_end(buf, p) >= p
+    decreases buf.len() - p
+{ if 0 <= p < buf.len() && is_regular(buf[p]) { lemma_reg_end_ge0(buf, p + 1); } }
